@@ -180,6 +180,12 @@ def _kinds(seed, tag, kinds2, kinds3, per2, per3, rnd_gen=None, rnd_n=0):
         out += exhaustive(k, 2, 2, per2, r.fork(k + "2"))
     for k in kinds3:
         out += exhaustive(k, 3, 1, per3, r.fork(k + "3"))
+    if per2 >= 1000:
+        # thorough tier: longer bodies as well (2 threads x 3 units, 3 threads x 2 units), sampled
+        for k in kinds2:
+            out += exhaustive(k, 2, 3, per2 // 6, r.fork(k + "2x3"))
+        for k in kinds3:
+            out += exhaustive(k, 3, 2, per3 // 6, r.fork(k + "3x2"))
     rr = r.fork("rnd")
     for _ in range(rnd_n):
         out.append(rnd_gen(rr))
